@@ -44,10 +44,10 @@ def cases(tier, seed, args):
             sc['K'] = 3
             sc['iterations'] = max(3, sc['iterations'])
         out.append(dict(t='emtrace', **sc))
-    for i in range(12 if q else 120):
-        out.append(dict(t='single', dist=['gauss_full', 'gauss_diagonal', 'gauss_spherical', 'watson', 'vmf', 'cacg'][i % 6],
+    for i in range(14 if q else 140):
+        out.append(dict(t='single', dist=['gauss_full', 'gauss_diagonal', 'gauss_spherical', 'watson', 'vmf', 'cacg', 'bingham'][i % 7],
                         L=[int(rng.integers(1, 3))] * int(rng.integers(0, 2)), D=int(rng.integers(2, 4)), N=int(rng.integers(6, 14)),
-                        saliency=bool(i % 2), seed=int(rng.integers(1 << 30)), maxc=[50.0, 20.0, 500.0, 200.0][(i // 6) % 4],
+                        saliency=bool(i % 2), seed=int(rng.integers(1 << 30)), maxc=[50.0, 20.0, 500.0, 200.0][(i // 7) % 4] if i % 7 != 6 else [500.0, 500.0, 30.0][(i // 7) % 3],
                         concentrated=bool(i % 3 == 0)))
     for i in range(24 if q else 240):
         nl = int(rng.integers(0, 3))
@@ -157,10 +157,19 @@ def _emtrace(case):
                 g = f['model'].gaussian
                 rec['gtype'] = {'Gaussian': 'full', 'DiagonalGaussian': 'diagonal', 'SphericalGaussian': 'spherical'}[type(g).__name__]
                 rec['glead'] = [list(map(int, ix)) for ix in np.ndindex(*L)]
+            rec['pooled'] = ''
+            rec['emb'] = dict(shape=[], data=[])
             if kind in ml.INTEGRATION:
-                rec['fields'] = [x for x in rec['fields'] if x['name'] in ('weight', 'cacg_eigenvectors', 'cacg_eigenvalues')]
+                # spectral stream pooled over all frequencies: embeddings as the trainer sees them
+                emb = data['emb'] if kind == 'gcacgmm' else ml.unit(data['emb'])
+                rec['emb'] = flat(emb)
+                rec['pooled'] = 'gaussian' if kind == 'gcacgmm' else 'vmf'
+                if kind == 'gcacgmm':
+                    g = f['model'].gaussian
+                    rec['gtype'] = {'Gaussian': 'full', 'DiagonalGaussian': 'diagonal', 'SphericalGaussian': 'spherical'}[type(g).__name__]
             if comp == 'bingham':
-                rec['comp'] = 'none'
+                rec['bingham_lambda'] = [float(x) for x in np.asarray(f['model'].complex_bingham.covariance_eigenvalues).ravel()]
+                rec['kmax'] = enc.flt(min(case.get('trainer_kw', {}).get('max_concentration', np.inf), 1e300))
             if comp == 'watson':
                 rec['watson_kappa'] = [float(x) for x in np.asarray(f['model'].complex_watson.concentration).ravel()]
             recs.append(rec)
@@ -211,6 +220,11 @@ def _single(case):
     elif dist == 'vmf':
         m, exc = call(VonMisesFisherTrainer().fit, y, saliency=sal)
         comp, z, zc = 'vmf', flat(ml.unit(y)), False
+    elif dist == 'bingham':
+        from pb_bss.distribution.complex_bingham import ComplexBinghamTrainer
+        kwb = {} if case['maxc'] >= 500.0 else dict(max_concentration=case['maxc'])
+        m, exc = call(ComplexBinghamTrainer(**kwb).fit, y, saliency=sal)
+        comp, z, zc = 'bingham', flatz(ml.unit(y)), True
     else:
         # one Tyler step from quadratic form 1, and the fixed point after many iterations
         tr = ComplexAngularCentralGaussianTrainer()
@@ -222,7 +236,7 @@ def _single(case):
     def lift(f):     # insert the class axis K = 1 at its schema position
         cax = dict(gaussian_mean=-2, gaussian_covariance_full=-3, gaussian_covariance_diagonal=-2, gaussian_covariance_spherical=-1,
                    watson_mode=-2, watson_concentration=-1, vmf_mean=-2, vmf_concentration=-1, cacg_eigenvectors=-3,
-                   cacg_eigenvalues=-2)[f['name']]
+                   cacg_eigenvalues=-2, bingham_eigenvalues=-2)[f['name']]
         sh = list(f['t']['shape'])
         sh.insert(len(sh) + 1 + cax, 1)
         return dict(f, t=dict(f['t'], shape=sh))
@@ -234,9 +248,13 @@ def _single(case):
                sal=flat(sal) if sal is not None else dict(shape=[], data=[]), has_qf=False, qf=dict(shape=[], data=[]),
                z=z, zcplx=zc, comp=comp, fields=fields, wca=[-1], wca_int=False, integration=False, always_sal=False,
                kmin=enc.flt(1e-10), kmax=enc.flt(case['maxc'] if dist == 'watson' else 500.0), gtype=dist.split('_')[1] if comp == 'gaussian' else '',
-               glead=[list(map(int, ix)) for ix in np.ndindex(*L)], gshared=False, watson_ratio=[], fp=fp, key=key)
+               glead=[list(map(int, ix)) for ix in np.ndindex(*L)], gshared=False, watson_ratio=[], pooled='',
+               emb=dict(shape=[], data=[]), fp=fp, key=key)
     if comp == 'watson':
         rec['watson_kappa'] = [float(x) for x in np.asarray(m.concentration).ravel()]
+    if comp == 'bingham':
+        rec['bingham_lambda'] = [float(x) for x in np.asarray(m.covariance_eigenvalues).ravel()]
+        rec['kmax'] = enc.flt(case['maxc'] if case['maxc'] < 500.0 else 1e300)
     recs = [rec]
     if dist == 'cacg':
         # Tyler fixed point: after 100 iterations the model reproduces itself under one more step
@@ -255,6 +273,8 @@ def _raw_dist(m):
         return [ml._field('cacg_eigenvectors', m.covariance_eigenvectors, True), ml._field('cacg_eigenvalues', m.covariance_eigenvalues)]
     if n == 'ComplexWatson':
         return [ml._field('watson_mode', m.mode, True), ml._field('watson_concentration', m.concentration)]
+    if n == 'ComplexBingham':
+        return [ml._field('cacg_eigenvectors', m.covariance_eigenvectors, True), ml._field('bingham_eigenvalues', m.covariance_eigenvalues)]
     if n == 'VonMisesFisher':
         return [ml._field('vmf_mean', m.mean), ml._field('vmf_concentration', m.concentration)]
     name = {'Gaussian': 'full', 'DiagonalGaussian': 'diagonal', 'SphericalGaussian': 'spherical'}[n]
